@@ -29,6 +29,12 @@ var Dict = []string{
 	"\n", "\r", "\r\n", "\t", " ", "\n\n", " \n", "\n ",
 	// byte classes: NUL, control, DEL, UTF-8 lead without continuation, invalid bytes, BOM
 	"\x00", "\x01", "\x1f", "\x7f", "\xc3", "\xc3\xa9", "\xff", "\xef\xbb\xbf", "\xe2\x80\xa8",
+	// runs of invalid UTF-8 (each byte decodes to U+FFFD: the decoded text is LONGER than the source)
+	"\xff\xfe\xff\xfe\xff\xfe", "\x80\x80\x80\x80\x80\x80\x80\x80\x80\x80\x80\x80", "\"\xff\xff\xff\xff\xff\xff\xff\"",
+	// exponents beyond int range
+	"E+99999999999999999999", "e-99999999999999999999", "1e99999999999999999999",
+	// comments right after an opening bracket inside rules
+	"[ // c\n", "{enum: [ // c\n1, 2]}", "[ /* c */",
 	// rule fragments
 	"{min: 1}", "{enum: @e}", "{enum: [", "{or: [", "{type: \"", "{allOf: \"@t\"}", "{additionalProperties: ", "{regex: \"", "optional: true", "nullable: true", "const: true", ", }", "{ ,",
 	// regex notation
